@@ -117,6 +117,91 @@ fn build_bundle(b: &Bundle) {
     b.put("zkir_count", zk::SEEDS.len().to_string().as_bytes());
 }
 
+// ---------------------------------------------------------------------------
+// keys of generated circuits (E1) with an edited header, used by the PLONK verifier.
+// The fixture relations above have one shape each; the generated family varies which columns
+// are queried at which rotations, which is what a key declaring another domain size disturbs
+// (k = 0 and 1 make rotations coincide).
+
+mod genkeys {
+    use midnight_proofs::{
+        plonk::VerifyingKey,
+        transcript::{CircuitTranscript, Transcript},
+        utils::SerdeFormat,
+    };
+    use proptest::prelude::*;
+    use serde::{Deserialize, Serialize};
+    use vp_plonk::{
+        e1::{build_plan, expand, knobs_strategy, GenCircuit, Knobs},
+        pv::{self, Blake, CS},
+    };
+    use vpcore::{CaseResult, Failure, Verdict};
+    type F = midnight_curves::Fq;
+
+    #[derive(Clone, Debug, Serialize, Deserialize)]
+    pub struct Case {
+        knobs: Knobs,
+        n_committed: usize,
+        wseed: u64,
+        raw: bool,
+    }
+
+    pub fn strategy() -> BoxedStrategy<Case> {
+        (knobs_strategy(6), 0usize..=1, any::<u64>(), any::<bool>()).prop_map(|(knobs, n_committed, wseed, raw)| Case { knobs, n_committed, wseed, raw }).boxed()
+    }
+
+    pub fn run(c: &Case) -> CaseResult {
+        let spec = expand(&c.knobs);
+        let n_committed = c.n_committed.min(spec.n_instance);
+        let plan = build_plan(&spec, c.wseed);
+        if pv::mock(&spec, &plan).is_err() {
+            return Ok(Verdict::trivial("harness:plan-not-satisfying"));
+        }
+        let (pk, vk) = pv::keygen(&spec).map_err(|e| Failure::new("harness:keygen-fails", e))?;
+        let st = pv::statement(&vk, &spec, &[plan.instances.clone()], n_committed);
+        let mut t = CircuitTranscript::<Blake>::init();
+        pv::prove(&pk, &spec, &[plan.clone()], n_committed, c.wseed ^ 0xabcd, &mut t).map_err(|e| Failure::new("harness:create_proof-fails", e))?;
+        let proof = t.finalize();
+        let fmt = if c.raw { SerdeFormat::RawBytes } else { SerdeFormat::Processed };
+        let mut bytes = vec![];
+        vk.write(&mut bytes, fmt).map_err(|e| Failure::new("harness:vk-write-fails", e.to_string()))?;
+        let honest_k = bytes[1];
+        let mut decoded = 0;
+        let mut collapsing = false;
+        // every domain size the field supports, and two beyond (the decoder must refuse those)
+        for k in 0..=34u8 {
+            let mut b = bytes.clone();
+            b[1] = k;
+            let spec2 = spec.clone();
+            let r = vpcore::catch(|| VerifyingKey::<F, CS>::from_bytes::<GenCircuit>(&b, fmt, spec2)).map_err(|p| Failure::new(format!("panic:plonk::VerifyingKey::from_bytes:{}", vpcore::panic_signature(&p)), format!("header k = {k}: {p}")))?;
+            let Ok(vk2) = r else { continue };
+            decoded += 1;
+            if k <= 1 {
+                collapsing = true;
+            }
+            let res = vpcore::catch(|| {
+                let mut t = CircuitTranscript::<Blake>::init_from_bytes(&proof);
+                pv::verify(&vk2, spec.k, &st, &mut t)
+            })
+            .map_err(|p| Failure::new(format!("panic:plonk::prepare(decoded-vk):{}", vpcore::panic_signature(&p)), format!("verification with a decoded key whose header declares k = {k} (honest {honest_k}) panicked: {p}; spec = {spec:?}")))?;
+            if k == honest_k {
+                res.map_err(|e| Failure::new("harness:honest-key-rejects", e))?;
+            } else if res.is_ok() {
+                return Err(Failure::new("plonk::prepare(decoded-vk):accepts-under-wrong-domain", format!("header k = {k}, honest {honest_k}")));
+            }
+        }
+        let feats = spec.features();
+        let mut v = Verdict::of(decoded >= 2 && !feats.is_empty(), format!("decoded-keys:{}", if decoded >= 30 { "30+" } else { "<30" }));
+        if collapsing {
+            v = v.with("k<=1-decoded");
+        }
+        for f in feats {
+            v = v.with(f);
+        }
+        Ok(v.with(if c.raw { "RawBytes" } else { "Processed" }))
+    }
+}
+
 fn main() {
     let args: Vec<String> = std::env::args().collect();
     if args.get(1).map(|s| s.as_str()) == Some("--worker") {
@@ -139,6 +224,16 @@ fn main() {
             subs::run_all(p, b, &pool);
         }
         pool.shutdown();
+        if p.quick() || p.is_replay() || std::env::var("VP_C16_FUZZ_ONLY").is_err() {
+            p.sub(
+                "plonk-vk:generated-circuits",
+                "verifying keys of generated circuits (E1 family: random gate rotations, lookups, copy constraints, committed instance columns) serialised, the header k byte set to each of 0..=34, decoded with from_bytes and used by prepare + verify on an honest proof of the original key: no panic, acceptance only under the honest k; non-trivial = at least two values of k decode and the circuit has a gate/lookup/copy feature",
+                p.tier.pick(120, 2000),
+                8,
+                genkeys::strategy,
+                genkeys::run,
+            );
+        }
         for t in pool.timeouts.lock().unwrap().iter() {
             p.inconclusive(format!("timeout: {t}"));
         }
